@@ -248,10 +248,19 @@ IsSinglePara(ts) ==
 POpen  == <<60, 112, 62>>
 PClose == <<60, 47, 112, 62, 10>>
 
+(* a one-line text that starts with a letter, holds no line ending and does not end in (Unicode) white space IS one
+   paragraph holding exactly that text: nothing in CommonMark can make it anything else.  For such a text the side
+   condition of the two laws is not read off the implementation (a defect there would hide itself). *)
+IsLetter(c) == (c >= 65 /\ c <= 90) \/ (c >= 97 /\ c <= 122)
+UniWS == {9, 10, 11, 12, 13, 28, 29, 30, 31, 32, 133, 160, 5760, 8232, 8233, 8239, 8287, 12288} \cup (8192..8202)
+CertainParagraph(t) == /\ t # <<>> /\ IsLetter(t[1]) /\ t[Len(t)] \notin UniWS
+                       /\ \A k \in DOMAIN t : t[k] \notin {10, 13, 0}
+
 InlineModeLaw ==
     LET B == Tr.base D == Tr.der IN
-    IF ~IsSinglePara(B.toks) THEN "skip:not_a_single_paragraph"
-    ELSE IF B.toks[2].c # Tr.a.src THEN "skip:paragraph_does_not_hold_the_source"
+    IF ~IsSinglePara(B.toks) THEN (IF CertainParagraph(Tr.a.t) THEN "one_line_text_is_not_one_paragraph" ELSE "skip:not_a_single_paragraph")
+    ELSE IF B.toks[2].c # Tr.a.src THEN (IF CertainParagraph(Tr.a.t) THEN "paragraph_does_not_hold_its_text"
+                                         ELSE "skip:paragraph_does_not_hold_the_source")
     ELSE IF Len(D.toks) # 1 \/ D.toks[1].ty # "inline" THEN "not_one_inline_token"
     ELSE IF D.toks[1].kids # B.toks[2].kids THEN "children"
     ELSE IF D.toks[1].c # B.toks[2].c THEN "content"
@@ -267,7 +276,8 @@ EmbedLaw ==
     LET B == Tr.base D == Tr.der t == Tr.a.t ctx == Tr.a.ctx IN
     IF t = <<>> \/ t[1] \in {32, 9} \/ t[Len(t)] \in {32, 9} THEN "skip:not_trimmed"
     ELSE IF \E k \in DOMAIN t : t[k] \in {10, 13} THEN "skip:not_one_line"
-    ELSE IF ~IsSinglePara(B.toks) \/ B.toks[2].c # Tr.a.src THEN "skip:block_syntax_in_paragraph_context"
+    ELSE IF ~IsSinglePara(B.toks) \/ B.toks[2].c # Tr.a.src THEN
+         (IF CertainParagraph(t) THEN "one_line_text_is_not_one_paragraph_holding_it" ELSE "skip:block_syntax_in_paragraph_context")
     ELSE IF ctx \in {"list", "quote"} /\ ~IsAlnum(t[1]) THEN "skip:not_alphanumeric_start"
     ELSE IF ctx = "atx" /\ t[Len(t)] = 35 THEN "skip:trailing_hash"
     ELSE IF ctx = "cell" /\ \E k \in DOMAIN t : t[k] \in {124, 92, 96} THEN "skip:pipe_backslash_backtick_in_cell"
